@@ -330,6 +330,7 @@ class NodeBase(object):
         """
         self._frozen = False
         self._stale = True
+        self.notify_parents()
 
     def mark_for_update(self):
         """
